@@ -146,6 +146,17 @@ class Mailbox:
         # if the nameplate is still allocated we'll get a foreign-key
         # failure when trying to delete the mailbox, so get rid of
         # those first
+        if self._usage_db:
+            # a nameplate that is still claimed is retired with its mailbox
+            for np_row in db.execute("SELECT * FROM `nameplates`"
+                                     " WHERE `app_id`=? AND `mailbox_id`=?",
+                                     (self._app_id, self._mailbox_id)
+                                     ).fetchall():
+                np_side_rows = db.execute("SELECT * FROM `nameplate_sides`"
+                                          " WHERE `nameplates_id`=?",
+                                          (np_row["id"],)).fetchall()
+                self._app._summarize_nameplate_and_store(np_side_rows, when,
+                                                         pruned=False)
         db.execute("DELETE FROM `nameplate_sides` WHERE `nameplates_id` IN"
                    " (SELECT `id` FROM `nameplates`"
                    "  WHERE `app_id`=? AND `mailbox_id`=?)",
